@@ -99,9 +99,9 @@ var c15rel = []token.Token{token.Less, token.LessEq, token.Greater, token.Greate
 var c15unops = []token.Token{token.Add, token.Sub, token.Xor, token.Not}
 
 type c15res struct {
-	val     ugo.Object
-	errName string
-	errMsg  string
+	val      ugo.Object
+	errName  string
+	errMsg   string
 	panicked string
 }
 
